@@ -358,13 +358,14 @@ def parseUsize (s : Text) : Option Nat :=
 section
 variable (F : NumFmt)
 
-/-- `CellValue::set_shared_string_item` (`set_value_string` / `set_rich_text` drop the formula) -/
+/-- `CellValue::set_shared_string_item`: called while a cell is read; the value is the cached result of
+    the formula read just before, which stays -/
 def setSharedStringItem (it : Item) (raw : RawValue F.Num) (formula : Option Text) : RawValue F.Num × Option Text :=
   let p : RawValue F.Num × Option Text := match it.text with
-    | some s => (.str s, none)
+    | some s => (.str s, formula)
     | none => (raw, formula)
   match it.rich with
-  | some r => (.rich r, none)
+  | some r => (.rich r, formula)
   | none => p
 
 /-- the `End(v)` arm of `Cell::set_attributes` -/
@@ -394,12 +395,12 @@ def svAfterV (t : Text) (v : VNode) : Text :=
   | .text raw => (match readText (decide (t ≠ tSTR)) raw with | some sv => sv | none => [])
   | _ => []
 
-/-- `<is><t>`: trimmed unless `xml:space="preserve"`; typed by guessing when `t="inlineStr"`;
-    `prev` is what the string variable held before -/
-def readIs (t : Text) (is : Option TX) (prev : Text) (raw : RawValue F.Num) : Option (RawValue F.Num) :=
+/-- `<is><t>`: read as a string item (`SharedStringItem::set_attributes` under the worksheet reader:
+    trimmed unless `xml:space="preserve"`); always text when `t="inlineStr"`, parsed and dropped otherwise -/
+def readIs (t : Text) (is : Option TX) (_prev : Text) (raw : RawValue F.Num) : Option (RawValue F.Num) :=
   match is with
   | none => some raw
-  | some tx => (readTextFrom prev (!tx.preserve) tx.raw).bind fun sv => some (if t = tINLINE then guess F sv else raw)
+  | some tx => (readText (!tx.preserve) tx.raw).bind fun sv => some (if t = tINLINE then .str sv else raw)
 
 /-- `Cell::set_attributes` on one `<c>` (children in schema order `f`, `v`, `is`); a `<c …/>`
     (`f`, `v`, `is` all absent) leaves the value empty, as the `empty_flag` early return does -/
